@@ -177,10 +177,23 @@ def run(ctx):
                   "the patch position is taken right before the placeholder")
         es = ctx.hir(HUFE + "::HuffmanEncoder::encode_stream")
         fr = [x for x in hq.find(es["body"], lambda x: x.get("k") == "For")]
-        ok = len(fr) == 1 and H.show(fr[0]["iter"]) == "data.iter().rev()"
-        pads = [(H.show(hq.peel(x["args"][0])), H.show(hq.peel(x["args"][1]))) for x in hq.find(es["body"], lambda x: x.get("k") == "MethodCall" and x["name"] == "write_bits")
-                if x["sp"][0] > (fr[0]["sp"][1] if fr else 0)]
-        ctx.check(ok and pads == [("1", "8"), ("1", "bits_to_fill")], RS, "encode_stream::reverse-and-padding", es["file"],
+        eix = hq.Index(es)
+        ok = len(fr) == 1 and eix.canon(fr[0]["iter"]) == "core::iter::traits::iterator::Iterator::rev(core::slice::iter($2))"
+        pw = [x for x in hq.find(es["body"], lambda x: x.get("k") == "MethodCall" and x["name"] == "write_bits") if x["sp"][0] > (fr[0]["sp"][1] if fr else 0)]
+        # the end marker as rows (condition -> value, width), any spelling: 1 in 8 bits when aligned, else 1 in the missing bits
+        pads = eix.group_alternatives([eix.call_rows([x], (0, 1)) for x in pw])
+        from ..booleval import norm_atom
+        okp = len(pads) == 1 and len(pads[0]) == 2
+        if okp:
+            rows_ = [([norm_atom(c_) for c_ in cs], v) for cs, v in pads[0]]
+            al = [r for r in rows_ if len(r[0]) == 1 and r[0][0][1] and r[1] == ("1", "8")]
+            ml = [r for r in rows_ if len(r[0]) == 1 and not r[0][0][1]]
+            okp = len(al) == 1 and len(ml) == 1 and al[0][0][0][0] == ml[0][0][0][0]
+            if okp:
+                x_ = ml[0][1][1]
+                okp = ml[0][1][0] == "1" and al[0][0][0][0] == "(0 == %s)" % x_ and \
+                    x_ in ("@BitWriter::misaligned", "ruzstd::bit_io::bit_writer::BitWriter::misaligned($1)")
+        ctx.check(ok and okp, RS, "encode_stream::reverse-and-padding", es["file"],
                   "symbols are written last-first and the stream is closed with a 1 bit then zero padding", observed=pads)
         # encode (single stream) writes table then the stream
         e1 = ctx.hir(HUFE + "::HuffmanEncoder::encode")
